@@ -10,7 +10,7 @@ FLAGS = {
     "C01": {"closed-while-in-use", "closed-twice", "closed-runner-granted"},
     "C02": {"two-replies", "not-drained", "request-never-answered", "scheduler-stuck-holding-its-lock"},
     "C11": {"more-runners-than-limit", "two-runners-for-one-model", "granted-runner-with-other-options",
-            "granted-runner-of-other-model"},
+            "granted-runner-of-other-model", "compatible-request-waits-instead-of-reusing-the-loaded-runner"},
 }
 INVS = ["NoCloseWhileInUse", "CloseAtMostOnce", "NoDeadGrant", "AtMostOneReply", "NoOrphan", "BoundedRunners",
         "OnePerModel", "NoLockCycle", "RefNonNeg"]
